@@ -125,10 +125,17 @@ impl Archive {
     }
 
     pub async fn band_is_closed(&self, band_id: BandId) -> Result<bool> {
-        self.transport
-            .is_file(&format!("{}/{}", band_id, crate::BAND_TAIL_FILENAME))
+        // A zero-length tail is what an interrupted write of the tail can leave behind:
+        // it does not close the band.
+        match self
+            .transport
+            .metadata(&format!("{}/{}", band_id, crate::BAND_TAIL_FILENAME))
             .await
-            .map_err(Error::from)
+        {
+            Ok(metadata) => Ok(metadata.kind == Kind::File && metadata.len > 0),
+            Err(err) if err.is_not_found() => Ok(false),
+            Err(err) => Err(err.into()),
+        }
     }
 
     /// Return an iterator of entries in a selected version.
